@@ -51,6 +51,12 @@ JStep(j, e) ==
               ELSE IF \E x \in j.exposed : x[1] = e.s /\ x[2] # e.fam THEN Bad(j, "two initialiser results exposed for one static")
               ELSE [j EXCEPT !.open = @ \ {<<e.t, e.s>>}, !.exposed = @ \cup {<<e.s, e.fam>>}]
          [] e.ev = "wrapper" -> [j EXCEPT !.wfam = e.fam]
+         \* summary of a free-running run (h_linked ptrace): the owner thread acquired e.pairs pairs of references, the first
+         \* alive while the second was acquired, while its previous only reference was dropped on another thread
+         [] e.ev = "ptrace" ->
+              IF e.two_live # 0 THEN Bad(j, "second live instance on one thread")
+              ELSE IF e.created # e.destroyed THEN Bad(j, "instance not destroyed although every reference and the wrapper are gone")
+              ELSE j
          [] e.ev = "create" ->
               IF j.wfam # 0 /\ e.fam # j.wfam THEN Bad(j, "instance of a foreign family created")
               ELSE [j EXCEPT !.insts = (e.inst :> [born |-> e.t, fam |-> e.fam, alive |-> TRUE, exposed |-> FALSE]) @@ @]
